@@ -1,7 +1,10 @@
 #!/bin/bash
-# runs the thorough tier of every claimed property sequentially; prints VARIANT/CONFIG/SUMMARY lines
+# runs the thorough tier of every claimed property (2 at a time); prints VARIANT/CONFIG/SUMMARY lines per property
 cd /verif
-for p in $(python3 -c "import json;print(' '.join(c['property_id'] for c in json.load(open('/verif/MANIFEST.json'))['checks']))"); do
-  /verif/bin/tpcheck -prop $p -tier thorough 2>&1 | grep -E "^(VARIANT|CONFIG|SUMMARY|ERROR|VIOLATION|UNDECIDED|violated)" | cut -c1-260
-  echo "rc[$p]=${PIPESTATUS[0]}"
-done
+one() {
+  out=$(/verif/bin/tpcheck -prop $1 -tier thorough 2>&1); rc=$?
+  echo "$out" | grep -E "^(VARIANT|CONFIG|SUMMARY|ERROR|VIOLATION|UNDECIDED|violated)" | cut -c1-260
+  echo "rc[$1]=$rc"
+}
+export -f one
+python3 -c "import json;print('\n'.join(c['property_id'] for c in json.load(open('/verif/MANIFEST.json'))['checks']))" | xargs -P 2 -I{} bash -c 'one {}'
